@@ -1,4 +1,7 @@
+pub mod cli;
 pub mod doc;
+pub mod marker;
 pub mod pair;
 pub mod tag;
+pub mod time;
 pub mod tok;
